@@ -10,7 +10,8 @@ COQ_CASE_TY = "(ty * val)"
 NAMES = ["P:root_constructor", "P:root_decoded", "P:root_from_obj", "P:root_default_then_mutated", "P:root_default_sparsely_mutated"]
 RULE = ("random type expressions (10 kinds, nesting <= 3, lengths/limits from chunk / power-of-two boundary sets, up "
         "to 2^40) x random values (boundary lengths, all-zero/all-one/random content) x routes {constructor, "
-        "decode_bytes(encode_bytes), from_obj(to_obj), default mutated element by element into the value, default with "
+        "decode_bytes(encode_bytes), from_obj(to_obj), default mutated element by element into the value (every third "
+        "element / field handed over as a view of another class with the same content), default with "
         "only the NON-ZERO fields / elements / bits assigned (zero sub-values keep their default backing)}; "
         "non-trivial = composite type and non-zero value")
 
@@ -37,16 +38,18 @@ def mutate_into(t, v):
             x.pop()
     elif k == "vec":
         for i, e in enumerate(v):
-            x[i] = mutate_into(t[1], e)
+            x[i] = mutate_into(t[1], e) if i % 3 != 1 else to_py_alt(t[1], e)
     elif k == "list":
-        for e in v:
-            x.append(mutate_into(t[1], e))
+        # every third element arrives as a view of ANOTHER class with the same content (larger limit, list for
+        # vector, a second container class): append / assignment coerce it to the element type
+        for i, e in enumerate(v):
+            x.append(mutate_into(t[1], e) if i % 3 != 0 else to_py_alt(t[1], e))
         if len(v) < t[2]:                 # one more than needed (a non-default element where there is one), popped again
             x.append(mutate_into(t[1], v[-1]) if v else T(t[1]).default(None) if is_basic(t[1]) else T(t[1])())
             x.pop()
     elif k == "cont":
         for i, (f, e) in enumerate(zip(t[1], v)):
-            setattr(x, "f%d" % i, mutate_into(f, e))
+            setattr(x, "f%d" % i, mutate_into(f, e) if i % 3 != 2 else to_py_alt(f, e))
     elif k == "union":
         sel, e = v
         o = union_opt(t, sel)
